@@ -27,11 +27,12 @@ use barter::{
 };
 use barter_data::{books::Level, subscription::book::OrderBookL1};
 use barter_execution::{
+    AccountEvent, AccountEventKind, AccountSnapshot, InstrumentAccountSnapshot,
     order::{
         Order, OrderKey, OrderKind, TimeInForce,
         id::{ClientOrderId, OrderId, StrategyId},
         request::{OrderRequestCancel, OrderRequestOpen, RequestCancel},
-        state::{ActiveOrderState, CancelInFlight, Open, OpenInFlight},
+        state::{ActiveOrderState, CancelInFlight, Open, OpenInFlight, OrderState},
     },
     trade::{AssetFees, Trade, TradeId},
 };
@@ -375,6 +376,7 @@ impl Check for CommandScope {
 
         let mut both_kinds_in_one = false;
         let mut dead_in_scope = false;
+        let mut resynced_orders = 0usize;
         let mut pos_with_and_without_price = (false, false);
 
         if !case.close_positions {
@@ -457,11 +459,54 @@ impl Check for CommandScope {
                 classify_scope(&mut rep, case, n_match, in_scope.len(), both_kinds_in_one, pos_with_and_without_price);
                 return rep;
             }
+            // In half of the cases every exchange re-sends a full account snapshot before the repeat (what a
+            // re-connected account stream delivers first): the exchange has not processed the cancels yet,
+            // so it still lists every order it knows as open, with the open data the engine already holds.
+            // No cancel was answered: the first command is still in flight.
+            let resync = case.instruments.len() % 2 == 1;
+            if resync {
+                let mut per_exchange: Vec<(ExchangeIndex, Vec<InstrumentAccountSnapshot>)> = Vec::new();
+                for st in engine.state.instruments.0.values() {
+                    let orders: Vec<_> = st
+                        .orders
+                        .0
+                        .values()
+                        .filter_map(|o| match &o.state {
+                            ActiveOrderState::CancelInFlight(CancelInFlight { order: Some(open) }) | ActiveOrderState::Open(open) => Some(Order {
+                                key: o.key.clone(),
+                                side: o.side,
+                                price: o.price,
+                                quantity: o.quantity,
+                                kind: o.kind,
+                                time_in_force: o.time_in_force,
+                                state: OrderState::active(open.clone()),
+                            }),
+                            _ => None,
+                        })
+                        .collect();
+                    if orders.is_empty() {
+                        continue;
+                    }
+                    resynced_orders += orders.len();
+                    let item = InstrumentAccountSnapshot { instrument: st.key, orders };
+                    match per_exchange.iter_mut().find(|(e, _)| *e == st.instrument.exchange) {
+                        Some((_, v)) => v.push(item),
+                        None => per_exchange.push((st.instrument.exchange, vec![item])),
+                    }
+                }
+                for (exchange, instruments) in per_exchange {
+                    let _ = engine.process(AccountEvent { exchange, kind: AccountEventKind::Snapshot(AccountSnapshot { exchange, balances: vec![], instruments }) }.into());
+                }
+                let stray = drain(&mut receivers);
+                if !stray.is_empty() {
+                    bad!("resync-sent", "an account snapshot between the two commands made the engine send {stray:?}");
+                }
+            }
             let snapshot = engine.state.clone();
             let audit2 = engine.process(EngineEvent::Command(command));
             let again = drain(&mut receivers);
             if !again.is_empty() {
-                bad!("repeat-cancel-sent", "repeating the cancel command while the first is in flight sent {again:?}");
+                bad!("repeat-cancel-sent", "repeating the cancel command while the first is in flight (full account snapshot in between: {resync}) sent {again:?}");
             }
             match &audit2 {
                 EngineAudit::Process(p2) => match p2.outputs.iter().next() {
@@ -473,6 +518,7 @@ impl Check for CommandScope {
             if engine.state != snapshot {
                 bad!("repeat-cancel-state", "repeated cancel command changed engine state");
             }
+            rep.class_if(resynced_orders > 0, "repeat_after_full_account_snapshot_listing_orders_open");
         } else {
             // ---- expected close set ------------------------------------------------------------------
             struct Want {
@@ -584,7 +630,7 @@ fn classify_scope(rep: &mut CaseReport, case: &ScopeCase, n_match: usize, n_tota
 }
 
 pub fn run(ctx: &mut Ctx) {
-    ctx.rule = "command_scope: 2..3 exchanges, 3..7 instruments (spot and perpetual on shared underlyings), per instrument 0..4 orders in {open-in-flight, open, partially filled open, cancel-in-flight with/without open data} with time in force rotating through GTC / post-only / IOC / FOK / end-of-day, (in 40% of the cases every instrument numbers its own orders, so instruments share client order ids), flat/long/short position, price unknown / last trade / two-sided L1 / one-sided L1; filter in {none, exchange subsets, instrument subsets, underlying subsets} incl. keys absent from the state and empty selections (built through the public constructors: they select nothing); command CancelOrders (issued twice; in a fifth of the cases some exchanges' links are dead: their requests are reported failed and leave no mark, the rest of the scope is still cancelled) or ClosePositions through Engine::process with DefaultStrategy on healthy links. non-trivial = filter matches a strict non-empty subset AND (a matching instrument holds both a cancellable and a cancel-in-flight order, or matching positions with and without a price exist); distinct by hash of the case.".into();
+    ctx.rule = "command_scope: 2..3 exchanges, 3..7 instruments (spot and perpetual on shared underlyings), per instrument 0..4 orders in {open-in-flight, open, partially filled open, cancel-in-flight with/without open data} with time in force rotating through GTC / post-only / IOC / FOK / end-of-day, (in 40% of the cases every instrument numbers its own orders, so instruments share client order ids), flat/long/short position, price unknown / last trade / two-sided L1 / one-sided L1; filter in {none, exchange subsets, instrument subsets, underlying subsets} incl. keys absent from the state and empty selections (built through the public constructors: they select nothing); command CancelOrders (issued twice, in half of the cases with a full account snapshot per exchange in between that still lists the orders as open; in a fifth of the cases some exchanges' links are dead: their requests are reported failed and leave no mark, the rest of the scope is still cancelled) or ClosePositions through Engine::process with DefaultStrategy on healthy links. non-trivial = filter matches a strict non-empty subset AND (a matching instrument holds both a cancellable and a cancel-in-flight order, or matching positions with and without a price exist); distinct by hash of the case.".into();
     ctx.assumptions = vec!["an instrument's market price is what InstrumentDataState::price() reports (documented: volume-weighted mid of a two-sided L1, else last traded price)".into()];
     ctx.run_regressions::<CommandScope>();
     ctx.run::<CommandScope>(ctx.tier.pick(60_000, 1_000_000));
